@@ -36,7 +36,8 @@ func init() {
 			"receiver level), or the stored value converted to an exact big.Rat equals V (-0 counts as 0; inf only equals inf of the same sign; NaN can only fail). " +
 			"Float destinations are judged only when the delivered event is an integer event. Every CBE/CTE wire form is also delivered through a local reference: the document " +
 			"{\"a\"=&x:V \"b\"=$x} is unmarshaled into struct{A holder; B destination} for two random holder types (uint64, int64, float64, *big.Int, *big.Float, interface{}, uint8, int16) and all 16 destinations; " +
-			"B must hold exactly the number A holds, or the unmarshal must fail (float destinations judged only for integer-kind holders). Non-trivial = V is not an integer in [-100,100]; distinct = distinct (V, form).",
+			"B must hold exactly the number A holds, or the unmarshal must fail (float destinations judged only for integer-kind holders). Every fourth case also unmarshals a list of 3-6 big integers " +
+			"(and a second document through the same unmarshaler) into []*big.Int, []big.Int and []interface{} and checks every element again afterwards. Non-trivial = V is not an integer in [-100,100]; distinct = distinct (V, form).",
 		Assumptions: []string{
 			"wire forms are written by the harness's own CBE/CTE spellers; each document is first decoded by the library decoder into a recorder and must carry exactly V, otherwise the tuple is reported separately and not judged",
 			"'integer value into a float destination' is read as: the event delivered to the builder is OnInt/OnPositiveInt/OnNegativeInt/OnBigInt; float/decimal events into float32/float64 are outside the statement and counted as dontcare",
@@ -283,6 +284,9 @@ func runC19(c *fw.Ctx, idx int) {
 	sess := builder.NewSession(nil, cfg)
 	// one unmarshaler of each kind per case (creating one costs ~1.7 ms, a call ~0.1 ms)
 	var umCBE, umCTE ce.Unmarshaler = ce.NewCBEUnmarshaler(cfg), ce.NewCTEUnmarshaler(cfg)
+	if idx%4 == 0 {
+		c19ManyBigInts(c, cfg)
+	}
 	forms := c19Forms(v, c.Rng)
 	sampled := false
 	for _, f := range forms {
@@ -513,6 +517,91 @@ func c19ViaReference(c *fw.Ctx, cfg *configuration.Configuration, um ce.Unmarsha
 			c.Fail(fmt.Sprintf("inexact-via-reference:%s->%s@%s", h.Name, dst.Class, region), detail(map[string]interface{}{"stored": sB.String(), "stored_go": c19GoString(rv.Field(1).Interface()),
 				"holder_value": c19GoString(rv.Field(0).Interface())}))
 		}
+	}
+}
+
+// c19ManyBigInts: several big integers in ONE document (and in consecutive documents through one unmarshaler) into
+// []*big.Int, []big.Int and []interface{}: every element must still hold its own value after the whole document, and a
+// result handed out earlier must not change when the same unmarshaler decodes the next document.
+func c19ManyBigInts(c *fw.Ctx, cfg *configuration.Configuration) {
+	r := c.Rng
+	n := 3 + r.Intn(4)
+	var vals []*big.Int
+	for i := 0; i < n; i++ {
+		words := []int{2, 2, 3, 4, 2, 9}[r.Intn(6)]
+		v := c19RandBig(r, 64*words-r.Intn(60))
+		if v.BitLen() <= 64 {
+			v.Lsh(v, 70)
+		}
+		if r.Intn(3) == 0 {
+			v.Neg(v)
+		}
+		vals = append(vals, v)
+	}
+	enc := func(vs []*big.Int) []byte {
+		doc := []byte{0x81, 0x00, 0x9a}
+		for _, v := range vs {
+			code := byte(0x66)
+			if v.Sign() < 0 {
+				code = 0x67
+			}
+			abs := new(big.Int).Abs(v)
+			l := (abs.BitLen() + 7) / 8
+			doc = append(append(append(doc, code), c19Uleb(uint64(l))...), c19LE(abs, l)...)
+		}
+		return append(doc, 0x9b)
+	}
+	doc := enc(vals)
+	want := func(i int) string { return vals[i].String() }
+	check := func(name string, got func(i int) (string, bool), count int) {
+		c.Eval()
+		c.Inc("many-bigints." + name)
+		if count != n {
+			c.Fail("many-bigints-wrong-count:"+name, map[string]interface{}{"doc": hexs(doc), "want": n, "got": count})
+			return
+		}
+		for i := 0; i < n; i++ {
+			g, ok := got(i)
+			if !ok || g != want(i) {
+				c.Fail("inexact:bint->bigint@several-big-integers-in-one-document:"+name, map[string]interface{}{"doc": hexs(doc), "element": i, "want": want(i), "got": g})
+				return
+			}
+		}
+	}
+	um := ce.NewCBEUnmarshaler(cfg)
+	if o, err := um.UnmarshalFromDocument(doc, []*big.Int(nil)); err == nil {
+		res, _ := o.([]*big.Int)
+		check("[]*big.Int", func(i int) (string, bool) {
+			if res[i] == nil {
+				return "nil", false
+			}
+			return res[i].String(), true
+		}, len(res))
+		// the next document through the same unmarshaler must not disturb the result already handed out
+		second := enc([]*big.Int{new(big.Int).Lsh(big.NewInt(0x7fffffff), 600), new(big.Int).Lsh(big.NewInt(3), 70)})
+		if _, err := um.UnmarshalFromDocument(second, []*big.Int(nil)); err == nil && len(res) == n {
+			check("[]*big.Int-after-next-document", func(i int) (string, bool) { return res[i].String(), res[i] != nil }, len(res))
+		}
+	} else {
+		c.Fail("many-bigints-rejected:[]*big.Int", map[string]interface{}{"doc": hexs(doc), "err": err.Error()})
+	}
+	if o, err := ce.UnmarshalFromCBEDocument(doc, []big.Int(nil), cfg); err == nil {
+		res, _ := o.([]big.Int)
+		check("[]big.Int", func(i int) (string, bool) { return res[i].String(), true }, len(res))
+	} else {
+		c.Fail("many-bigints-rejected:[]big.Int", map[string]interface{}{"doc": hexs(doc), "err": err.Error()})
+	}
+	if o, err := ce.UnmarshalFromCBEDocument(doc, nil, cfg); err == nil {
+		res, _ := o.([]interface{})
+		check("[]interface{}", func(i int) (string, bool) {
+			b, ok := res[i].(*big.Int)
+			if !ok || b == nil {
+				return fmt.Sprintf("%T", res[i]), false
+			}
+			return b.String(), true
+		}, len(res))
+	} else {
+		c.Fail("many-bigints-rejected:untyped", map[string]interface{}{"doc": hexs(doc), "err": err.Error()})
 	}
 }
 
